@@ -3,6 +3,7 @@ package checks
 import (
 	"fmt"
 	"testing"
+	"time"
 
 	"github.com/jdillenkofer/pithos/verif/mc/ev"
 	"github.com/jdillenkofer/pithos/verif/mc/sx"
@@ -122,10 +123,27 @@ var shareSeeds = [][]sx.Op{
 func init() {
 	sx.Register(&sx.Spec{Name: "C01share", Buckets: []string{"bka"}, Keys: []string{"k1", "k2"}, Alphabet: shareAlphabet,
 		Assert: map[string]bool{"exist": true, "content": true, "result": true, "upload": true}})
+	// the same histories with one injected failure per step: an operation that FAILED is not an
+	// acknowledged write, so every key must still return the last acknowledged content
+	sx.Register(&sx.Spec{Name: "C01fail", Buckets: []string{"bka"}, Keys: []string{"k1", "k2"}, Alphabet: shareAlphabet,
+		Assert: map[string]bool{"exist": true, "content": true, "result": true, "upload": true}, Faults: true, FaultOracle: c01AfterFailure})
 	sx.Register(&sx.Spec{Name: "C01q", Buckets: c01Buckets, Keys: c01Keys, Alphabet: c01Alphabet([]string{"e", "P9"}, true),
 		Assert: map[string]bool{"exist": true, "content": true, "result": true, "upload": true}})
 	sx.Register(&sx.Spec{Name: "C01t", Buckets: c01Buckets, Keys: c01Keys, Alphabet: c01Alphabet([]string{"e", "a", "A", "B"}, false),
 		Assert: map[string]bool{"exist": true, "content": true, "result": true, "upload": true}})
+}
+
+// c01AfterFailure: after an operation that returned an error the model is unchanged; existence and
+// content of every bucket, key and version must still be the model's.
+func c01AfterFailure(c *sx.StepCtx, _, _ string) []sx.Diff {
+	var out []sx.Diff
+	for _, d := range sx.DiffObs(c.M.Observe(c.Spec.Buckets, c.Spec.Keys), c.Post) {
+		if d.Class == "exist" || d.Class == "content" {
+			d.Where = "after failed " + c.Op.Short() + " (" + c.ImplR.Err + "): " + d.Where
+			out = append(out, d)
+		}
+	}
+	return out
 }
 
 func TestC01(t *testing.T) {
@@ -149,9 +167,18 @@ func TestC01(t *testing.T) {
 	if !quick() {
 		sh.Depth, sh.Stacks = 6, []string{world.StackFS, world.StackSQL, world.StackNamed}
 	}
+	fl := &sx.Search{Run: run, TestRun: "^TestWorker$", Spec: sx.SpecByName("C01fail"), Depth: 1,
+		Seeds: append([][]sx.Op{{{Kind: "CreateBucket", B: "bka"}, {Kind: "Put", B: "bka", K: "k1", Body: "P9"}, {Kind: "Put", B: "bka", K: "k2", Body: "a"}}}, shareSeeds...), Stacks: []string{world.StackFS}}
+	if !quick() {
+		fl.Depth, fl.Stacks = 2, []string{world.StackFS, world.StackSQL, world.StackNamed}
+	}
+	fl.Until = time.Now().Add(time.Until(run.Deadline()) / 4)
+	fl.Explore()
+	sh.Until = time.Now().Add(time.Until(run.Deadline()) / 2)
 	sh.Explore()
 	s.Explore()
 	s.Merge(sh)
+	s.Merge(fl)
 	s.Coverage()
 	fmt.Printf("C01: states=%d transitions=%d depth=%v outcomes=%d\n", s.States, s.Transitions, s.DepthDone, len(s.Outcomes))
 	finish(t, run)
